@@ -29,6 +29,9 @@ type World struct {
 
 // NewWorld creates the sandbox under base.
 func NewWorld(t *testing.T, base string) *World {
+	if rb, err := filepath.EvalSymlinks(base); err == nil {
+		base = rb // physical path: the removal veto compares resolved paths
+	}
 	root := filepath.Join(base, "w") // the driver gives every concurrent worker its own base
 	curRoot = root
 	w := &World{T: t, Root: root}
